@@ -105,6 +105,11 @@ fn mal(rng: &mut Rng, ctx: &mut Ctx) {
         let (line, _) = read_line(&b, skip, hash);
         let mut c = Case::new(read_cmd(skip, hash, &b), line.clone());
         if line == "panic" || line.starts_with("panic ") { c.fail("C06", format!("one-shot reader panicked ({}; skip={}, hash={})", kind, skip, hash)); }
+        if k % 7 == 3 { let dir = std::env::temp_dir().join(format!("pv-debug-mal-{}-{}", std::process::id(), k)); let _ = std::fs::remove_dir_all(&dir);
+            let o = slippi::de::Opts { skip_frames: skip, compute_hash: hash, debug: Some(slippi::de::Debug { dir: dir.clone() }) };
+            let res = std::panic::catch_unwind(|| slippi::read(Cursor::new(&b), Some(&o)).map(|g| dump::summary(&g)).map_err(|e| e.to_string()));
+            match res { Err(_) => c.fail("C06", format!("one-shot reader panicked with the debug option ({})", kind)), Ok(r) => { if r.is_ok() != line.starts_with("ok") { c.fail("C06", "the debug option changes whether a corrupted replay is accepted"); } } }
+            let _ = std::fs::remove_dir_all(&dir); }
         let inc = std::panic::catch_unwind(|| incremental(&b));
         match inc { Err(_) => c.fail("C06", format!("incremental reader panicked ({})", kind)), Ok(Err(e)) if e == "no-progress" => c.fail("C06", "parse_event returned without consuming input"), _ => {} }
         c.tags = vec![format!("kind:{}", kind), format!("outcome:{}", line.split(' ').next().unwrap_or("")), tags[7].clone(), format!("skip{}", skip as u8)];
